@@ -109,8 +109,11 @@ def body_two(h):
             # NOT binds weaker than relational and arithmetic operators, stronger than AND..IMP:
             # NOT A op1 B ... applies to the whole sub-expression of operators stronger than NOT
             if p1 > NOTP and p2 > NOTP:
-                left = apply(o1, a, b, guard)
-                want = nt(apply(o2, left, C, guard))
+                # NOT applies to the whole of A op1 B op2 C, grouped by the operators' own precedence
+                if p2 > p1:
+                    want = nt(apply(o1, a, apply(o2, b, C, guard), guard))
+                else:
+                    want = nt(apply(o2, apply(o1, a, b, guard), C, guard))
             elif p1 > NOTP:
                 want = apply(o2, nt(apply(o1, a, b, guard)), C, guard)
             elif p2 > p1:
